@@ -405,18 +405,10 @@ pub fn for_each_input(cfg: &crate::RunCfg, label: &str, plan: &RxPlan, f: &mut d
     // CRC-32C / CRC-32 of the message in either byte order, computed from the transport header, the
     // message-type byte or the body onwards. The decoder must reject every one of them (IC set).
     for b in &bases {
-        if b.len() < 10 || b.len() > 120 || b[8] & 0x80 != 0 {
-            continue;
-        }
-        for (poly, start, big) in [(0x82F6_3B78u32, 4usize, true), (0x82F6_3B78, 8, false), (0x82F6_3B78, 8, true), (0x82F6_3B78, 9, false), (0xEDB8_8320, 8, false), (0xEDB8_8320, 4, true)] {
+        for v in ic_trailer_variants(b) {
             item!({
-                let mut p = b[..b.len() - 1].to_vec();
-                p[8] |= 0x80;
-                let c = crate::refmodel::crc::crc32_reflected(poly, &p[start..]);
-                p.extend_from_slice(&if big { c.to_be_bytes() } else { c.to_le_bytes() });
-                p.push(0);
-                // variants: consistent byte count + PEC, or a deliberately wrong PEC
-                fix_count_and_pec(&mut p);
+                let mut p = v.clone();
+                // one in three with a deliberately wrong PEC
                 if rng.chance(1, 3) {
                     let l = p.len();
                     p[l - 1] ^= 0x3C;
@@ -570,4 +562,23 @@ pub fn for_each_input(cfg: &crate::RunCfg, label: &str, plan: &RxPlan, f: &mut d
     for _ in 0..n {
         item!(gen_any(&mut rng));
     }
+}
+
+/// Copies of a well-formed packet with the IC bit set and a plausible message integrity check in
+/// front of the PEC (byte count and PEC consistent). The decoder must reject every one (IC set).
+pub fn ic_trailer_variants(b: &[u8]) -> Vec<Vec<u8>> {
+    let mut out = Vec::new();
+    if b.len() < 10 || b.len() > 120 || b[8] & 0x80 != 0 {
+        return out;
+    }
+    for (poly, start, big) in [(0x82F6_3B78u32, 4usize, true), (0x82F6_3B78, 8, false), (0x82F6_3B78, 8, true), (0x82F6_3B78, 9, false), (0xEDB8_8320, 8, false), (0xEDB8_8320, 4, true)] {
+        let mut p = b[..b.len() - 1].to_vec();
+        p[8] |= 0x80;
+        let c = crate::refmodel::crc::crc32_reflected(poly, &p[start..]);
+        p.extend_from_slice(&if big { c.to_be_bytes() } else { c.to_le_bytes() });
+        p.push(0);
+        fix_count_and_pec(&mut p);
+        out.push(p);
+    }
+    out
 }
